@@ -32,6 +32,19 @@ func CycleCorpus(full bool) []*sdl.Program {
 			out = append(out, p)
 		}
 	}
+	// one deep ring: creation nests once per member before the first one is finished
+	{
+		const L = 160
+		p := &sdl.Program{ID: "PX", Family: FamWire, NIfaces: 1, Note: fmt.Sprintf("ring L=%d edge=ptr (deep)", L)}
+		for i := 0; i < L; i++ {
+			t := &sdl.Type{Name: fmt.Sprintf("PXT%d", i), Init: i%16 == 0}
+			t.Points = []*sdl.Point{{Field: "F0", Kind: sdl.KPtr, Target: fmt.Sprintf("PXT%d", (i+1)%L), Sel: sdl.SelType}}
+			p.Types = append(p.Types, t)
+			// names sort like the ring: the first member is created first and pulls in all others
+			p.Instances = append(p.Instances, &sdl.Instance{ID: fmt.Sprintf("c%d", i), Type: t.Name, Alias: fmt.Sprintf("d%03d", i)})
+		}
+		out = append(out, p)
+	}
 	for L := 2; L <= 5; L++ {
 		for rot := 0; rot < L; rot++ {
 			for _, kind := range []string{sdl.KPtr, sdl.KIface, sdl.KPtrs, "name", "lookup", "lookup+ptr"} {
